@@ -1,4 +1,4 @@
-(* C07 - executable model of nstd Variant's representation (Variant.hpp, after the two repairs of
+(* C07 - executable model of nstd Variant's representation (Variant.hpp, after the repairs of
    fixes/C07): a heap of reference-counted blocks with NESTED handles.
 
      handle  = inline scalar (Variant::_data, ref 0)  |  block id (Variant::data -> heap block)
@@ -252,6 +252,13 @@ Definition mupd_arg (s : state) (i : nat) (p : path) (x : handle)
   | None => None
   end.
 
+(* getType() == stringType: the String payload *)
+Definition str_payload (H : heap) (h : handle) : option bytes :=
+  match h with
+  | HB b => match lookup H b with Some (PStr s) => Some s | _ => None end
+  | HS _ => None
+  end.
+
 Definition mstep (s : state) (o : op) : option (state * outcome) :=
   let n := length (vars s) in
   match o with
@@ -310,6 +317,48 @@ Definition mstep (s : state) (o : op) : option (state * outcome) :=
                 | None => Some (s1, NoSrc)
                 end
             | _ => mupd_arg s1 i p HNull (leaf_cont k c HNull)
+            end
+        | Some (s1, false) => Some (s1, NoPath)
+        | None => None
+        end
+      else Some (s, BadVar)
+  | OAssignStrFrom i p j sp =>
+      (* const look: is the source a string?  then `String& r = <mutable navigation of j along sp>.toString()`,
+         `Variant& d = <mutable navigation of i along p>`, `d = r` - operator=(const String&) AFTER the repair
+         (fixes/C07/03): the new payload is built from r before the old one is released *)
+      if (i <? n)%nat && (j <? n)%nat then
+        match mread sp (hp s) (geth (vars s) j) with
+        | Some x =>
+            match str_payload (hp s) x with
+            | Some b =>
+                match mupd_var s j sp (leaf_str []) with
+                | Some (s0, _) =>
+                    match mupd_var s0 i p leaf_id with
+                    | Some (s1, true) => mupd_arg s1 i p HNull (leaf_setstr b)
+                    | Some (s1, false) => Some (s1, NoPath)
+                    | None => None
+                    end
+                | None => None
+                end
+            | None => Some (s, NoSrc)
+            end
+        | None => Some (s, NoSrc)
+        end
+      else Some (s, BadVar)
+  | OAssignNodeFrom i p j sp k =>
+      (* operator=(const HashMap&/List&/Array&) AFTER the repair (fixes/C07/03): the copy of the argument
+         (every contained Variant copied = shared) is built first, then the old payload is released
+         (clear(), or the old items of an exclusively owned payload of the same kind) *)
+      if (i <? n)%nat && (j <? n)%nat then
+        match mupd_var s i p leaf_id with
+        | Some (s1, true) =>
+            match mread sp (hp s1) (geth (vars s1) j) with
+            | Some y =>
+                let '(ks, hs) := mopen k (hp s1) y in
+                let H0 := fold_left share hs (hp s1) in
+                let '(H2, x) := alloc H0 (PNode k ks hs) in
+                mupd_arg {| hp := H2; vars := vars s1 |} i p x (leaf_set x)
+            | None => Some (s1, NoSrc)
             end
         | Some (s1, false) => Some (s1, NoPath)
         | None => None
